@@ -10,7 +10,7 @@ CLAIMED = {
    ref='DESIGN.md section 4 (C03)', note='Trusted: TLC, the projection, NumPy. Exhaustive only for the transcribed algorithms inside MC_C03 bounds (3 columns quick, 4 thorough); the interface sweep is a sample.',
    technique='TLA+ refinement check (SFBlocks refines SFFrame) with TLC; state dump replayed into the code; cross-layout traces validated by a TLC trace spec'),
  'C04': dict(
-   text='TLC checks the selection semantics (SFFrame: positional keys via Python-exact slices, label keys, stop-inclusive label slices, dimensionality rule) on every key of a small scope (MC_C04) and shows that the as-built slice translation meets the required meaning; every TLC-enumerated case is replayed on the real Frame/Series for every block layout, and seeded random frames/keys recorded from the real code are validated by TLC (Trace_C04).',
+   text='TLC checks the selection semantics (SFFrame: positional keys via Python-exact slices, label keys, stop-inclusive label slices, dimensionality rule) on every key of a small scope (MC_C04) and shows that the as-built slice translation meets the required meaning; every TLC-enumerated case is replayed on the real Frame/Series for every block layout, and seeded random frames/keys (incl. real auto-integer indices) recorded from the real code are validated by TLC (Trace_Ops). Datetime-typed indices: SFDate states selection by period (a key of the index unit names one label, a coarser key every label in the period, slices from the first label of the start period through the last of the stop period); MC_C04D checks the transcribed LocMap slice arithmetic against it on every ascending date index of a small calendar (negative control: unordered indices), and selections recorded through IndexDate / IndexYearMonth (static, grow-only, grow-only with an append pending in the caches) with string / date / datetime64 keys on the index, Series and both Frame axes are validated by TLC (Trace_C04D).',
    ref='DESIGN.md section 4 (C04)', note='Trusted: TLC, the projection (sfverif.project), NumPy. Exhaustive only inside MC_C04 bounds (3x3 quick / 4x4 thorough); beyond that the evidence is the validated sample.',
    technique='TLA+ spec SFFrame/SFSeq + TLC model checking; TLC state dump replayed into the code; recorded calls validated by a TLC trace spec'),
  'C08': dict(
